@@ -11,28 +11,64 @@ theorem hasUnits_iff (d : Dim) : hasUnits d = true ↔ d ≠ Dim.zero := by
 theorem hasUnits_false_iff (d : Dim) : hasUnits d = false ↔ d = Dim.zero := by
   rw [← Bool.not_eq_true, hasUnits_iff]; exact not_not
 
-theorem compatible_of_same {a b : Q} (ha : IsQty a) (h : a.dim = b.dim) : compatible a b = true := by
-  unfold compatible
-  have : hasUnits b.dim = true := (hasUnits_iff _).mpr (h ▸ ha)
-  rw [if_pos this]; exact beq_iff_eq.mpr h
+theorem absR_sub_comm (x y : Rat) : absR (x - y) = absR (y - x) := by
+  unfold absR
+  split <;> split <;> linarith
 
-theorem compatible_of_bareZero {a b : Q} (h : BareZero b) : compatible a b = true := by
-  unfold compatible
-  have : hasUnits b.dim = false := (hasUnits_false_iff _).mpr h.1
-  simp [this, h.2]
+theorem sameUnits_iff (thr : Rat) (a b : Dim) : sameUnits thr a b = true ↔ Dim.Within thr a b := by
+  simp only [sameUnits, Dim.zip, Dim.toList, List.all_cons, List.all_nil, Bool.and_true, Bool.and_eq_true,
+    decide_eq_true_eq, Dim.Within]
 
-theorem compatible_of {a b : Q} (ha : IsQty a) (h : a.dim = b.dim ∨ BareZero b) : compatible a b = true :=
-  h.elim (compatible_of_same ha) compatible_of_bareZero
+theorem Dim.within_iff_not_differs (thr : Rat) (a b : Dim) : Dim.Within thr a b ↔ ¬ Dim.Differs thr a b := by
+  simp only [Dim.Within, Dim.Differs, not_or, not_lt]
 
-theorem not_compatible_of {a b : Q} (hd : a.dim ≠ b.dim) (hb : ¬ BareZero b) : compatible a b = false := by
-  unfold compatible
+theorem Dim.Within.refl {thr : Rat} (h : 0 ≤ thr) (a : Dim) : Dim.Within thr a a := by
+  simp only [Dim.Within, sub_self, absR_zero, h, and_self]
+
+theorem Dim.Within.symm {thr : Rat} {a b : Dim} (h : Dim.Within thr a b) : Dim.Within thr b a := by
+  simp only [Dim.Within] at h ⊢
+  rw [absR_sub_comm b.m, absR_sub_comm b.kg, absR_sub_comm b.s, absR_sub_comm b.A, absR_sub_comm b.K,
+    absR_sub_comm b.mol, absR_sub_comm b.cd]
+  exact h
+
+theorem Dim.Differs.symm {thr : Rat} {a b : Dim} (h : Dim.Differs thr a b) : Dim.Differs thr b a := by
+  by_contra hn
+  exact ((Dim.within_iff_not_differs thr a b).mp ((Dim.within_iff_not_differs thr b a).mpr hn).symm) h
+
+theorem Dim.Within.of_eq {thr : Rat} (h : 0 ≤ thr) {a b : Dim} (he : a = b) : Dim.Within thr a b :=
+  he ▸ Dim.Within.refl h a
+
+/-- the guard, in the vocabulary of the property -/
+theorem compatible_iff (thr : Rat) (a b : Q) : compatible thr a b = true ↔ Compatible thr a b := by
+  unfold compatible Compatible
   by_cases hu : hasUnits b.dim = true
-  · rw [if_pos hu]; exact beq_eq_false_iff_ne.mpr hd
-  · rw [if_neg hu]
-    have hz : b.dim = Dim.zero := (hasUnits_false_iff _).mp (by simpa using hu)
-    cases hv : b.val.isZero
-    · rfl
-    · exact absurd ⟨hz, hv⟩ hb
+  · have hq : IsQty b := (hasUnits_iff _).mp hu
+    rw [if_pos hu, sameUnits_iff]
+    exact ⟨fun h => Or.inl ⟨hq, h⟩, fun h => h.elim (fun h => h.2) (fun h => absurd h.1 hq)⟩
+  · have hz : b.dim = Dim.zero := (hasUnits_false_iff _).mp (by simpa using hu)
+    rw [if_neg hu]
+    exact ⟨fun h => Or.inr ⟨hz, h⟩, fun h => h.elim (fun h => absurd hz h.1) (fun h => h.2)⟩
+
+theorem compatible_of_bareZero {thr : Rat} {a b : Q} (h : BareZero b) : compatible thr a b = true :=
+  (compatible_iff thr a b).mpr (Or.inr h)
+
+theorem compatible_of_same {thr : Rat} (hthr : 0 ≤ thr) {a b : Q} (ha : IsQty a) (h : a.dim = b.dim) :
+    Compatible thr a b :=
+  Or.inl ⟨fun hb => ha (h.trans hb), Dim.Within.of_eq hthr h⟩
+
+theorem not_compatible_of {thr : Rat} {a b : Q} (hd : Dim.Differs thr a.dim b.dim) (hb : ¬ BareZero b) :
+    compatible thr a b = false := by
+  rw [← Bool.not_eq_true, compatible_iff]
+  rintro (⟨_, hw⟩ | hz)
+  · exact (Dim.within_iff_not_differs _ _ _).mp hw hd
+  · exact hb hz
+
+theorem not_compatible_of_plain {thr : Rat} {a b : Q} (hb : b.dim = Dim.zero) (hnz : b.val.isZero = false) :
+    compatible thr a b = false := by
+  rw [← Bool.not_eq_true, compatible_iff]
+  rintro (⟨hq, _⟩ | hz)
+  · exact hq hb
+  · rw [hz.2] at hnz; exact Bool.noConfusion hnz
 
 theorem beq_fun_eq : (fun x y : Rat => x == y) = (fun x y => decide (x = y)) := by
   funext x y; exact Bool.beq_eq_decide_eq x y
@@ -48,6 +84,18 @@ theorem ofCmp_compare (f : Rat → Rat → Bool) (x y : Num) : ofCmp (compare f 
 theorem build_arith (f : Rat → Rat → Rat) (x y : Num) (d : Dim) : build (arith f x y) d = valOut d (onMagnitudes f x y) := by
   cases x <;> cases y <;> simp only [arith, zipNum, onMagnitudes, build, valOut]
   next l m => by_cases h : l.length = m.length <;> simp [h]
+
+theorem ofCmp_compare_ne_unitsError (f : Rat → Rat → Bool) (x y : Num) : ofCmp (compare f x y) ≠ .err .unitsError := by
+  rw [ofCmp_compare]
+  cases h : onMagnitudes f x y with
+  | none => simp [cmpOut]
+  | some r => cases r <;> simp [cmpOut]
+
+theorem build_arith_ne_unitsError (f : Rat → Rat → Rat) (x y : Num) (d : Dim) : build (arith f x y) d ≠ .err .unitsError := by
+  rw [build_arith]
+  cases h : onMagnitudes f x y with
+  | none => simp [valOut]
+  | some r => cases r <;> simp [valOut]
 
 theorem onMagnitudes_flip {α} (f : Rat → Rat → α) (x y : Num) :
     onMagnitudes (fun p q => f q p) y x = onMagnitudes f x y := by
@@ -69,6 +117,43 @@ theorem snap_ne_zero {thr e : Rat} (h : 0 ≤ thr) (hf : thr < absR e) : snap th
     rw [h0] at hn
     simp at hn
     linarith
+
+/-- for a threshold below one half, `_build` sends an exponent to zero exactly when it is within the threshold of zero -/
+theorem snap_eq_zero_iff {thr e : Rat} (h : 0 ≤ thr) (ht : thr < 1 / 2) : snap thr e = 0 ↔ absR e ≤ thr := by
+  constructor
+  · intro hs
+    by_contra hn
+    exact snap_ne_zero h (not_le.mp hn) hs
+  · intro ha
+    have hlo : -thr ≤ e := by unfold absR at ha; split at ha <;> linarith
+    have hhi : e ≤ thr := by unfold absR at ha; split at ha <;> linarith
+    have hn : nearest e = 0 := by
+      unfold nearest
+      have : (e + 1 / 2).floor = 0 := by
+        apply le_antisymm
+        · have h' : ¬ ((0 : Int) + 1 ≤ (e + 1 / 2).floor) := by
+            rw [Rat.le_floor_iff]; push_cast; intro h''; linarith
+          omega
+        · rw [Rat.le_floor_iff]; push_cast; linarith
+      rw [this]; rfl
+    unfold snap
+    rw [hn, sub_zero, if_neg (not_lt.mpr ha)]
+
+/-- equality of units (repaired `__eq__`) is what division followed by `_build` decides: no units remain -/
+theorem div_isZero_iff_within {thr : Rat} (h : 0 ≤ thr) (ht : thr < 1 / 2) (a b : Dim) :
+    (Dim.div thr a b).isZero = true ↔ Dim.Within thr a b := by
+  rw [Dim.isZero_iff]
+  constructor
+  · intro hz
+    have hc := congrArg Dim.toList hz
+    simp only [Dim.div, Dim.build, Dim.map, Dim.zip, Dim.toList, Dim.zero, List.cons.injEq, and_true] at hc
+    obtain ⟨h1, h2, h3, h4, h5, h6, h7⟩ := hc
+    exact ⟨(snap_eq_zero_iff h ht).mp h1, (snap_eq_zero_iff h ht).mp h2, (snap_eq_zero_iff h ht).mp h3,
+      (snap_eq_zero_iff h ht).mp h4, (snap_eq_zero_iff h ht).mp h5, (snap_eq_zero_iff h ht).mp h6,
+      (snap_eq_zero_iff h ht).mp h7⟩
+  · rintro ⟨h1, h2, h3, h4, h5, h6, h7⟩
+    apply Dim.ext' <;> simp only [Dim.div, Dim.build, Dim.map, Dim.zip, Dim.zero] <;>
+      exact (snap_eq_zero_iff h ht).mpr ‹_›
 
 theorem div_ne_zero_of_differs {thr : Rat} (h : 0 ≤ thr) {a b : Dim} (hd : Dim.Differs thr a b) :
     Dim.div thr a b ≠ Dim.zero := by
